@@ -184,23 +184,21 @@ theorem import_opens_only_inside (F : ImportFacts) (hF : F.receiverIsConfiguredL
         · exact ih _ _ q hq
     · simp at hq
 
-/-- **import_statement_confined.** For the tree under test (facts of this run): every file opened by an
-    import statement, nested imports included, lies inside the root the provider was configured with —
-    for every source name, path value, file system and nesting depth. -/
-theorem import_statement_confined (adv : Str → Str → Str → Str × Str) (fs : FS) (root : Str) (fuel : Nat)
+/-- **import_statement_confined.** If the fact of this run ESTABLISHES that `importRuntime.Eval` calls `Resolve` on the
+    provider's configured locator (`Ecal.Gen.C17.receiverFact = some true`; `none` = the extractor could not
+    establish it, `some false` = refuted, which breaks `Props/C17Facts.lean`), then with the model the driver
+    runs every file opened by an import statement, nested imports included, lies inside the root the provider
+    was configured with — for every source name, path value, file system and nesting depth. -/
+theorem import_statement_confined (h : Ecal.Gen.C17.receiverFact = some true)
+    (adv : Str → Str → Str → Str × Str) (fs : FS) (root : Str) (fuel : Nat)
     (src p : Str) : ∀ q ∈ (importEval Ecal.Gen.C17.importFacts adv fs root fuel src p).2, inside root q :=
-  import_opens_only_inside _ (by decide) adv fs root fuel src p
+  import_opens_only_inside _ (by simp [Ecal.Gen.C17.importFacts, h]) adv fs root fuel src p
 
-/-- **import_ignores_source_name.** For the tree under test: the outcome of an import statement — the
-    module reached and every file opened — does not depend on the source name of the importing program
-    (a name with directories, starting with `..`, absolute, equal to a file outside the root), and not
-    on the adversary: only the configured root and the path value take part. -/
-theorem import_ignores_source_name (adv adv' : Str → Str → Str → Str × Str) (fs : FS) (root : Str) (fuel : Nat)
-    (src src' p : Str) :
-    importEval Ecal.Gen.C17.importFacts adv fs root fuel src p =
-      importEval Ecal.Gen.C17.importFacts adv' fs root fuel src' p := by
-  have h1 : Ecal.Gen.C17.importFacts.receiverIsConfiguredLocator = true := by decide
-  have h2 : Ecal.Gen.C17.importFacts.argumentIsPathValue = true := by decide
+/-- by construction of `importEval` (once both facts hold it never looks at the source name or the adversary):
+    an example, not a property theorem -/
+example (F : ImportFacts) (h1 : F.receiverIsConfiguredLocator = true) (h2 : F.argumentIsPathValue = true)
+    (adv adv' : Str → Str → Str → Str × Str) (fs : FS) (root : Str) (fuel : Nat) (src src' p : Str) :
+    importEval F adv fs root fuel src p = importEval F adv' fs root fuel src' p := by
   induction fuel generalizing src src' p with
   | zero => rfl
   | succ fuel ih =>
@@ -235,13 +233,9 @@ example :
     importEval ⟨false, true⟩ (fun _ _ p => (b "", p)) fs (b "root") 2 (b "../main.ecal") (b "./nm") = (some 1, [b "nm"]) := by
   decide
 
-/-- **tool_root_is_configured.** For the tree under test: the locator `CreateRuntimeProvider` builds is
-    rooted at the configured directory string itself, whatever it is — a missing directory or a dangling
-    link stays the root (so every import fails there) instead of being replaced by another directory. -/
-theorem tool_root_is_configured (adv : Str → Str) (dir : Str) :
-    toolRoot Ecal.Gen.C17.toolRootIsDir adv dir = dir := by
-  have h : Ecal.Gen.C17.toolRootIsDir = true := by decide
-  simp [toolRoot, h]
+/-- by construction of `toolRoot`: with the fact not refuted the locator's root is the configured string itself
+    (an example, not a property theorem; the T / U / V lines tie it to `CreateRuntimeProvider`) -/
+example (adv : Str → Str) (dir : Str) : toolRoot true adv dir = dir := rfl
 
 /-! ## What "inside" means in a directory tree -/
 
